@@ -45,6 +45,32 @@ Proof. reflexivity. Qed.
 Lemma vsub3 a b c x y z : vsub [a; b; c] [x; y; z] = [(a - x)%Q; (b - y)%Q; (c - z)%Q].
 Proof. reflexivity. Qed.
 
+(** a 4x4 matrix is its 16 entries *)
+Lemma mat44_ext A B :
+  is_shape 4 4 A = true -> is_shape 4 4 B = true ->
+  (forall i k, i < 4 -> k < 4 -> mentry A i k = mentry B i k) -> A = B.
+Proof.
+  intros HA HB H.
+  destruct (is_shape44 A HA) as (a00&a01&a02&a03&a10&a11&a12&a13&a20&a21&a22&a23&a30&a31&a32&a33&->).
+  destruct (is_shape44 B HB) as (b00&b01&b02&b03&b10&b11&b12&b13&b20&b21&b22&b23&b30&b31&b32&b33&->).
+  pose proof (H 0 0) as E00. pose proof (H 0 1) as E01. pose proof (H 0 2) as E02. pose proof (H 0 3) as E03.
+  pose proof (H 1 0) as E10. pose proof (H 1 1) as E11. pose proof (H 1 2) as E12. pose proof (H 1 3) as E13.
+  pose proof (H 2 0) as E20. pose proof (H 2 1) as E21. pose proof (H 2 2) as E22. pose proof (H 2 3) as E23.
+  pose proof (H 3 0) as E30. pose proof (H 3 1) as E31. pose proof (H 3 2) as E32. pose proof (H 3 3) as E33.
+  cbn [mentry nth] in *.
+  rewrite E00, E01, E02, E03, E10, E11, E12, E13, E20, E21, E22, E23, E30, E31, E32, E33 by lia. reflexivity.
+Qed.
+
+Lemma reduced_entry A i k : reduced A -> Qred (mentry A i k) = mentry A i k.
+Proof.
+  intros H. unfold mentry. destruct (Nat.lt_ge_cases i (length A)) as [Hi|Hi].
+  - pose proof (proj1 (Forall_forall _ _) H (nth i A []) (nth_In _ _ Hi)) as Hr.
+    destruct (Nat.lt_ge_cases k (length (nth i A []))) as [Hk|Hk].
+    + apply (proj1 (Forall_forall _ _) Hr), nth_In, Hk.
+    + rewrite nth_overflow by exact Hk. reflexivity.
+  - rewrite (nth_overflow A) by exact Hi. destruct k; reflexivity.
+Qed.
+
 (* ---------------------------------------------------------------------------- cumulative translation update *)
 
 Definition aff_shift (A : mat) (u : vec) (i : nat) : mat := Nat.iter i (fun M => add_trans M u) A.
@@ -115,6 +141,12 @@ Proof.
 Qed.
 Lemma veq_map_Qred v : veq (map Qred v) v.
 Proof. induction v as [|x v IH]; cbn [map]; constructor; [apply Qred_correct | exact IH]. Qed.
+
+Lemma veq_nth a b : veq a b -> forall j, (nth j a 0 == nth j b 0)%Q.
+Proof.
+  induction 1 as [|x y a b Hxy _ IH]; intros j; [destruct j; reflexivity|].
+  destruct j as [|j]; cbn [nth]; [exact Hxy | apply IH].
+Qed.
 
 Lemma veq_length a b : veq a b -> length a = length b.
 Proof. induction 1; cbn [length]; congruence. Qed.
